@@ -896,12 +896,14 @@ class Arm(Robot):
         new_home = fsr.localToGlobal(self._end_effector_home, old_to_new)
         self._end_effector_home = new_home
         self._helper_determine_eef_to_last_joint()
+        self._helper_refresh_after_tool_change()
 
     #Converted to Python - Joshua
     def restoreOriginalEE(self) -> None:
         """Restore the original End effector configuration of the arm."""
         self._end_effector_home = self._original_end_effector_home
         self._helper_determine_eef_to_last_joint()
+        self._helper_refresh_after_tool_change()
 
     def getScrewList(self) -> 'np.ndarray[float]':
         """
@@ -1454,6 +1456,14 @@ class Arm(Robot):
                 atol = 1e-9, rtol = 0):
             self._eef_to_last_joint = fsr.globalToLocal(
                     self._end_effector_home, self._joint_homes_global[-1])
+
+    def _helper_refresh_after_tool_change(self):
+        """Re-derive the body screws and the reported tool pose after the home tool pose changed."""
+        for i in range(0, self.num_dof):
+            self.screw_list_body[:, i] = (
+                fmr.Adjoint(self._end_effector_home.inv().gTM()) @
+                self.screw_list[:, i])
+        self.FK(self._theta)
 
     def _helper_ensure_theta_not_none(self, theta : 'np.ndarray[float]') -> 'np.ndarray[float]':
         """
